@@ -82,6 +82,8 @@ def boot():
         mod = importlib.util.module_from_spec(spec)
         spec.loader.exec_module(mod)
         sys.modules[name] = mod
+    import logging
+    logging.disable(logging.WARNING)  # jellyfysh logs configuration warnings for harness templates; not a verdict
     import jellyfysh
     if not os.path.realpath(jellyfysh.__file__).startswith(os.path.realpath(REPO) + os.sep):
         raise BuildError("jellyfysh imported from %s, not from %s" % (jellyfysh.__file__, REPO))
